@@ -333,8 +333,13 @@ def chunkings(rng, data, n):
     out = [[data]] if data else [[b""]]
     if len(data) <= 64:
         out.append([data[i:i + 1] for i in range(len(data))])
+    else:
+        # 1-byte reads through the fixed header (type byte and every length byte), then the rest
+        out.append([data[i:i + 1] for i in range(6)] + [data[6:]])
     while len(out) < n:
         cuts = sorted({rng.randint(0, len(data)) for _ in range(rng.choice([1, 2, 3, 6]))}) if data else []
+        if data and rng.chance(0.4):
+            cuts = sorted(set(cuts) | {rng.randint(1, min(5, len(data)))})
         parts, prev = [], 0
         for c in cuts:
             parts.append(data[prev:c])
